@@ -40,7 +40,7 @@ ASSUMPTIONS = [
     "GetTimeResponse.epoch_seconds is only checked for plausibility (+-5 s of the harness wall clock)",
 ]
 EXHAUSTIVE_NOTE = "quick: type ids 0..400 and every defined id with a valid payload; thorough: every type id 0..65535"
-BUDGET = {"quick": {"examples": 500, "shards": 4}, "thorough": {"examples": 10000, "shards": 16}}
+BUDGET = {"quick": {"examples": 500, "shards": 4}, "thorough": {"examples": 10000, "shards": 16, "fuzz": {"procs": 4, "runs": 6000}}}
 FLOORS = {"reentrant": 0.12, "unknown_type": 0.1, "peer_request": 0.08}
 
 TYPES6 = [26, 25, 21, 27, 29, 24]
